@@ -186,3 +186,13 @@ def run(ctx):
                 if st.get("job.was_cached") is not True:
                     bad_cached = hkey
     r5.check(okreg and seen_then and seen_fail and bad_cached is None, f"{m.rel}:Job.collapse", f"a collapsed duplicate is not handed the twin's result (done) and error (reject) while marked cached (then->done seen: {seen_then}, fail->reject seen: {seen_fail}, not marked cached in: {bad_cached})", m.rel, col.lineno)
+
+    # ---- C06.6 finished calls stay discoverable under their context --------------------------
+    # A duplicate that arrives after its twin has finished is found only through the backend's same-execution lookup, which filters call nodes by
+    # their context tag.  A finished (also: failed) call whose node lacks the tag is invisible to an equal call under the same context -- the
+    # call is handed to an executor a second time.
+    r6 = ctx.rule("C06.6", "both finalisers tag the call node with the job's context before the job is recorded as ended", floor=2)
+    from .C05 import context_tag_obligations
+
+    for construct, ok, msg, rel, line in context_tag_obligations(repo):
+        r6.check(ok, construct, msg + "; an equal call created later in the same execution under that context misses the same-execution lookup and is executed again", rel, line)
